@@ -799,14 +799,16 @@ class Lexer:
 
     def error(self, msg: str) -> Never:
         """Emit an error token."""
+        # Keep the error position inside the source text, even if we've
+        # reached the end of input.
+        index = max(min(self.pos, len(self.source) - 1), 0)
         raise LiquidSyntaxError(
             msg,
             token=ErrorToken(
                 type_=TokenType.ERROR,
-                # Keep the error position inside the source text, even if we've
-                # reached the end of input.
-                index=max(min(self.pos, len(self.source) - 1), 0),
-                value=self.source[self.start : self.pos],
+                index=index,
+                # The text at `index`, so `stop` stays inside the source too.
+                value=self.source[index : index + 1],
                 markup_start=self.markup_start,
                 markup_stop=self.pos,
                 source=self.source,
